@@ -91,8 +91,11 @@ class C05World(DstWorld):
             if p not in actual:
                 bad("C05.missing", f"{p} disappeared (model content {files[p]})", step=out["pre_step"])
         into_missing = out["pre_step"] == "SENDING_EOF_ACK_PDU" and out["post_step"] == "WAITING_FOR_MISSING_DATA" and st.m["cur"] is not None
-        if ev[0] == "fd" and (out["pre_step"] in ACCEPT_STEPS or into_missing) and not out.get("accepted"):
-            e = self.exc(out)
+        e = self.exc(out)
+        tid = st.D.h.transaction_id
+        foreign = bool(e) and e["exc"] == "InvalidTransactionSeqNum" and tid is not None and tid.seq_num.value != st.seq
+        # (after 'newtx' the PDUs carry the next sequence number: a handler still busy with the previous transaction refuses them)
+        if ev[0] == "fd" and (out["pre_step"] in ACCEPT_STEPS or into_missing) and not out.get("accepted") and not foreign:
             bad("C05.fd_not_accepted", f"File Data PDU offered in step {out['pre_step']} was not accepted ({e})", step=out["pre_step"],
                 exc=None if not e else e["exc"], site=None if not e else e["site"])
         return v
